@@ -282,6 +282,32 @@ impl Prop for C14 {
                 }
             }
         }
+        // pairs that differ in exactly ONE octet of the encoding, at every offset (all families): whatever field the octet
+        // belongs to - a label behind an EVPN route key, a reserved bit, the last octet of a route distinguisher - `==`,
+        // `cmp == Equal` and equal hashes must go together (round-6 seed: EVPN `==` / `cmp` on the RFC 7432 route key,
+        // derived `Hash` on all octets)
+        for var in &vars {
+            let mut encs: Vec<Vec<u8>> = (0..3).map(|_| ref_enc(var.shape, &small_val(rng, var))).collect();
+            if var.name.starts_with("L2VpnEvpn") {
+                let pid: Vec<u8> = if var.name.contains("Addpath") { vec![0, 0, 0, 7] } else { vec![] };
+                let rd_esi_tag = |rng: &mut Rng| { let mut b = vec![0u8, 1]; b.extend(rng.bytes(6)); b.extend(rng.bytes(10)); b.extend(rng.bytes(4)); b };
+                // route type 1 (Ethernet A-D): RD, ESI, tag, one label = 25 octets
+                let mut b1 = rd_esi_tag(rng); b1.extend([0x00, 0x06, 0x41]);
+                // route type 2 (MAC/IP): RD, ESI, tag, MAC length 48 + MAC, IP length 0 / 32 / 128 + IP, one or two labels
+                for iplen in [0usize, 4, 16] { for labels in [1usize, 2] {
+                    let mut b2 = rd_esi_tag(rng); b2.push(48); b2.extend(rng.bytes(6)); b2.push((iplen * 8) as u8); b2.extend(rng.bytes(iplen));
+                    for _ in 0..labels { b2.extend([0x00, 0x07, 0xd1]); }
+                    let mut e = pid.clone(); e.push(2); e.push(b2.len() as u8); e.extend(b2); encs.push(e);
+                } }
+                let mut e = pid.clone(); e.push(1); e.push(b1.len() as u8); e.extend(b1); encs.push(e);
+            }
+            for e in &encs {
+                for i in 0..e.len().min(96) { for m in [1u8, 0x80] {
+                    let mut f = e.clone(); f[i] ^= m;
+                    out.push(format!("cmp {} {} {}", var.name, hex(e), hex(&f)));
+                } }
+            }
+        }
         for var in &vars {
             for _ in 0..(160 * scale) {
                 let a = small_val(rng, var);
